@@ -203,6 +203,12 @@ def run(ctx):
         "internal_error_followups": internal_followups,
         "impl_oracle_failures": len(ctx.violations),
     }
+    own_qual_main = sum(1 for r in cases if "(use 0 fn Main q)" in r[2])
+    if internal_followups:
+        ctx.notes.append(f"{internal_followups} worlds: `Internal error: Variable … not found` follows an unresolved constructor pattern "
+                         "(still a rejection; counted as class `unresolved`)")
+    ctx.notes.append("own items are named without prefix in Main: the model (fullDefName) predicts `Main::f` unresolved; "
+                     f"{own_qual_main} generated worlds use it (the generator qualifies own items only outside Main)")
     ctx.assumptions += [
         "a use is a reference form naming a *standard* item (struct, enum, trait, fn) that every loadable package defines; the typer's "
         "inference is not modelled — only whether the name is reachable",
